@@ -1452,6 +1452,11 @@ func parsePublicKey(algo PublicKeyAlgorithm, keyData *publicKeyInfo, nfe *NonFat
 		}
 		return pub, nil
 	case Ed25519:
+		// RFC 8410, Section 3: an Ed25519 public key is exactly 32 octets. A
+		// key of any other size is not a key (ed25519.Verify panics on it).
+		if len(asn1Data) != ed25519.PublicKeySize {
+			return nil, errors.New("x509: wrong Ed25519 public key size")
+		}
 		return ed25519.PublicKey(asn1Data), nil
 	default:
 		return nil, nil
